@@ -23,6 +23,15 @@ func calleesMatching(fn *ssa.Function, prefix string) []string {
 					if n := prov.CalleeName(c.Common()); strings.HasPrefix(n, prefix) {
 						set[n] = true
 					}
+					// a class function handed to a scanning helper as a value
+					// (p.getWhile(isKeyChar)) is used just the same
+					for ai, a := range c.Common().Args {
+						if f, ok := a.(*ssa.Function); ok {
+							if n := prov.FuncString(f); strings.HasPrefix(n, prefix) && appliedToBytes(c.Common(), ai) {
+								set[n] = true
+							}
+						}
+					}
 				}
 			}
 		}
@@ -81,17 +90,35 @@ func checkC16(e *Env) {
 		e.requireResult("RESULT", fn, o1, 0, "call:"+p.inner+"(alloc:structuredheader.parser)#0", "the parsed value")
 		// the emptiness test comes after the last whitespace skip
 		if fn != nil {
-			var lastOWS, empty ssa.Instruction
+			// in the parser entry point itself, or in a helper the rule tables do
+			// not know that it calls (p.expectEnd())
+			cands := []*ssa.Function{fn}
 			for _, b := range fn.Blocks {
 				for _, in := range b.Instrs {
 					if c, ok := in.(*ssa.Call); ok {
-						switch prov.CalleeName(&c.Call) {
-						case "(*structuredheader.parser).discardLeadingOWS":
-							lastOWS = in
-						case "(*structuredheader.parser).isEmpty":
-							empty = in
+						if h := c.Call.StaticCallee(); h != nil && h.Blocks != nil && e.P.InModule(h) && !prov.KnownFunction(h) {
+							cands = append(cands, h)
 						}
 					}
+				}
+			}
+			var lastOWS, empty ssa.Instruction
+			for _, g := range cands {
+				var o, m ssa.Instruction
+				for _, b := range g.Blocks {
+					for _, in := range b.Instrs {
+						if c, ok := in.(*ssa.Call); ok {
+							switch prov.CalleeName(&c.Call) {
+							case "(*structuredheader.parser).discardLeadingOWS":
+								o = in
+							case "(*structuredheader.parser).isEmpty":
+								m = in
+							}
+						}
+					}
+				}
+				if o != nil && m != nil {
+					lastOWS, empty = o, m
 				}
 			}
 			key := p.fn + ":ows-before-empty-test"
@@ -116,7 +143,7 @@ func checkC16(e *Env) {
 	o0 := gate.Outcome{Kind: gate.ErrNil, Idx: 0}
 	ser := e.fn(pkg + "(*ParameterisedIdentifier).serialize")
 	e.requireGates("GATE", ser, o0, noCfg, gate.CallBool("W.label", "structuredheader.isValidToken", true, "param:pi.Label"))
-	tKeys := "phi(append(↺,alloc:[1]string)|const:nil)"
+	tKeys := "phi(append(↺,alloc:[1]*)|*)" // the key slice accumulated from the map, whatever its element type and initial value
 	forAllIterations(e, "FORALL", ser, tKeys, noCfg, gate.CallBool("W.key", "structuredheader.isValidKey", true, tKeys+"[rangeidx]"))
 	forAllIterations(e, "FORALL", ser, tKeys, noCfg,
 		either("W.value", "value absent, or serializeItem ok",
@@ -124,8 +151,8 @@ func checkC16(e *Env) {
 			gate.CallOK("", "structuredheader.serializeItem", "param:pi.Params["+tKeys+"[rangeidx]]", "param:out")))
 	e.gatesBefore("GATE", ser, noCfg, "emit-key", func(in ssa.Instruction) bool {
 		c, ok := in.(*ssa.Call)
-		return ok && prov.CalleeName(&c.Call) == "(*strings.Builder).WriteString" && prov.Of(c.Call.Args[1]) == tKeys+"[rangeidx]"
-	}, gate.CallInstr("W.sorted", "sort.Strings", tKeys))
+		return ok && prov.CalleeName(&c.Call) == "(*strings.Builder).WriteString" && prov.Match("{"+tKeys+"[rangeidx]|conv("+tKeys+"[rangeidx])}", prov.Of(c.Call.Args[1]))
+	}, gate.CallInstr("W.sorted", "sort.Strings || sort.Slice || sort.SliceStable || slices.Sort", tKeys))
 	si := e.fn(pkg + "serializeItem")
 	e.gatesBefore("GATE", si, noCfg, "emit-token", func(in ssa.Instruction) bool {
 		c, ok := in.(*ssa.Call)
@@ -259,4 +286,52 @@ func subsetOf(e *Env, key, pos string, sub, super []string, whatSub, whatSuper s
 	} else {
 		e.R.Fail("TABLE", key, pos, whatSub+" are not all among "+whatSuper, "not covered: "+strings.Join(extra, ","), whatSub+": "+strings.Join(sub, ","), whatSuper+": "+strings.Join(super, ","))
 	}
+}
+
+// appliedToBytes: the module function that receives a class function as its
+// argument ai calls it only on bytes taken from a string or byte slice (an
+// element load), never on a value narrowed from a wider type (byte(r) for a
+// rune r accepts code points whose low byte happens to be allowed).
+func appliedToBytes(c *ssa.CallCommon, ai int) bool {
+	h := c.StaticCallee()
+	if h == nil || h.Blocks == nil {
+		return false
+	}
+	if c.IsInvoke() || ai >= len(h.Params) {
+		return false
+	}
+	p := h.Params[ai]
+	calls := 0
+	for _, b := range h.Blocks {
+		for _, in := range b.Instrs {
+			ci, ok := in.(ssa.CallInstruction)
+			if !ok || ci.Common().Value != ssa.Value(p) {
+				continue
+			}
+			calls++
+			if len(ci.Common().Args) != 1 {
+				return false
+			}
+			switch x := ci.Common().Args[0].(type) {
+			case *ssa.UnOp: // load of an element address
+				if _, ok := x.X.(*ssa.IndexAddr); !ok {
+					return false
+				}
+			case *ssa.Index, *ssa.Lookup: // s[i] of a string
+			default:
+				return false
+			}
+		}
+	}
+	// the function value must not travel anywhere else
+	if refs := p.Referrers(); refs != nil {
+		for _, r := range *refs {
+			if ci, ok := r.(ssa.CallInstruction); !ok || ci.Common().Value != ssa.Value(p) {
+				if _, isDbg := r.(*ssa.DebugRef); !isDbg {
+					return false
+				}
+			}
+		}
+	}
+	return calls > 0
 }
